@@ -412,7 +412,14 @@ package varmq
 // TunePool: only a running worker can be tuned; the limit becomes withSafeConcurrency(n); growing raises the signal; shrinking (without
 // idle expiry) retires at most old-new idle workers and never goes below the idle minimum that was available.
 //@ func worker.TunePool
-//@   props C14 C18 C02 C03 CORE
+//@   props C14 C18 C02 C03 CORE C18@B2 C01@B2
+// B2: a node is stopped and cached only when this goroutine took it out of the idle list itself (PopBack returned it, or Remove returned true)
+//@   ghost entry: $own := false
+//@   ghost after call linkedlist.List.PopBack: $own := result != nil
+//@   ghost after call linkedlist.List.Remove: $own := $own || result
+//@   ghost after call linkedlist.List.Back: $own := false
+//@   assert [b2-own-stop] before call pool.Node.Stop: $own
+//@   assert [b2-own-put]  before call sync.Pool.Put: $own
 //@   requires RI_worker(w) && w.Configs.minIdleWorkerRatio <= 100 && w.concurrency * w.Configs.minIdleWorkerRatio <= MaxUint32
 //@   modifies w.concurrency, $chan(w.eventLoopSignal), $alloc, linkedlist.Node.next, linkedlist.Node.prev, w.pool.List.len, w.pool.List.$at, w.pool.List.$pos, w.pool.List.$in,
 //@            key CH:sent<, key CH:rcvd<, key CHV:<, key G:$poolputs
@@ -487,6 +494,7 @@ package varmq
 //@   ensures [other]    action != "enqueued" ==> $submitted(wb.worker.metrics) == old($submitted(wb.worker.metrics)) && $sent(wb.worker.eventLoopSignal) == old($sent(wb.worker.eventLoopSignal))
 
 //@ func workerBinder.WithQueue
+//@   assert [registered-before-start] before call varmq.worker.start: len(wb.worker.queues.Manager.items) == old(len(wb.worker.queues.Manager.items)) + 1
 //@   props C14 C15 C02 C18
 //@   requires wb.worker != nil && RI_worker(wb.worker) && len(wb.worker.queues.Manager.items) < MaxInt - 2 && wb.worker.Configs.idleWorkerExpiryDuration >= 0 && len(wb.worker.tickers) < MaxInt && q != nil
 //@   modifies wb.worker.status, $alloc, $spawned, wb.worker.$disp, wb.worker.$reapers, wb.worker.$listeners, wb.worker.$nodes, wb.worker.tickers, wb.worker.tickers[**], key G:$tickersLive, $chan(wb.worker.eventLoopSignal), linkedlist.Node.next, linkedlist.Node.prev, wb.worker.pool.List.len, wb.worker.pool.List.$at, wb.worker.pool.List.$pos, wb.worker.pool.List.$in, wb.worker.queues.Manager.items, wb.worker.queues.Manager.items[**]
@@ -507,6 +515,7 @@ package varmq
 //@   ensures [ri]        RI_worker(wb.worker)
 
 //@ func workerBinder.WithPriorityQueue
+//@   assert [registered-before-start] before call varmq.worker.start: len(wb.worker.queues.Manager.items) == old(len(wb.worker.queues.Manager.items)) + 1
 //@   props C14 C15 C02 C18
 //@   requires wb.worker != nil && RI_worker(wb.worker) && len(wb.worker.queues.Manager.items) < MaxInt - 2 && wb.worker.Configs.idleWorkerExpiryDuration >= 0 && len(wb.worker.tickers) < MaxInt && pq != nil
 //@   modifies wb.worker.status, $alloc, $spawned, wb.worker.$disp, wb.worker.$reapers, wb.worker.$listeners, wb.worker.$nodes, wb.worker.tickers, wb.worker.tickers[**], key G:$tickersLive, $chan(wb.worker.eventLoopSignal), linkedlist.Node.next, linkedlist.Node.prev, wb.worker.pool.List.len, wb.worker.pool.List.$at, wb.worker.pool.List.$pos, wb.worker.pool.List.$in, wb.worker.queues.Manager.items, wb.worker.queues.Manager.items[**]
@@ -607,7 +616,8 @@ package varmq
 //@   ensures [ri]        RI_worker(rwb.worker)
 
 //@ func workerBinder.WithPersistentQueue
-//@   props C14 C15 C02 C18
+//@   assert [registered-before-start] before call varmq.worker.start: len(wb.worker.queues.Manager.items) == old(len(wb.worker.queues.Manager.items)) + 1
+//@   props C14 C15 C02 C18 C11
 //@   requires wb.worker != nil && RI_worker(wb.worker) && len(wb.worker.queues.Manager.items) < MaxInt - 2 && wb.worker.Configs.idleWorkerExpiryDuration >= 0 && len(wb.worker.tickers) < MaxInt && pq != nil
 //@   modifies wb.worker.status, $alloc, $spawned, wb.worker.$disp, wb.worker.$reapers, wb.worker.$listeners, wb.worker.$nodes, wb.worker.tickers, wb.worker.tickers[**], key G:$tickersLive, $chan(wb.worker.eventLoopSignal), linkedlist.Node.next, linkedlist.Node.prev, wb.worker.pool.List.len, wb.worker.pool.List.$at, wb.worker.pool.List.$pos, wb.worker.pool.List.$in, wb.worker.queues.Manager.items, wb.worker.queues.Manager.items[**]
 //@   ensures [once]      len(wb.worker.queues.Manager.items) == old(len(wb.worker.queues.Manager.items)) + 1 && wb.worker.queues.Manager.items[old(len(wb.worker.queues.Manager.items))] == pq
@@ -617,7 +627,8 @@ package varmq
 //@   ensures [ri]        RI_worker(wb.worker)
 
 //@ func workerBinder.WithPersistentPriorityQueue
-//@   props C14 C15 C02 C18
+//@   assert [registered-before-start] before call varmq.worker.start: len(wb.worker.queues.Manager.items) == old(len(wb.worker.queues.Manager.items)) + 1
+//@   props C14 C15 C02 C18 C11
 //@   requires wb.worker != nil && RI_worker(wb.worker) && len(wb.worker.queues.Manager.items) < MaxInt - 2 && wb.worker.Configs.idleWorkerExpiryDuration >= 0 && len(wb.worker.tickers) < MaxInt && pq != nil && len(wb.worker.queues.Manager.items) < MaxInt - 1
 //@   modifies wb.worker.status, $alloc, $spawned, wb.worker.$disp, wb.worker.$reapers, wb.worker.$listeners, wb.worker.$nodes, wb.worker.tickers, wb.worker.tickers[**], key G:$tickersLive, $chan(wb.worker.eventLoopSignal), linkedlist.Node.next, linkedlist.Node.prev, wb.worker.pool.List.len, wb.worker.pool.List.$at, wb.worker.pool.List.$pos, wb.worker.pool.List.$in, wb.worker.queues.Manager.items, wb.worker.queues.Manager.items[**]
 //@   ensures [once]      len(wb.worker.queues.Manager.items) == old(len(wb.worker.queues.Manager.items)) + 1 && wb.worker.queues.Manager.items[old(len(wb.worker.queues.Manager.items))] == pq
@@ -627,7 +638,8 @@ package varmq
 //@   ensures [ri]        RI_worker(wb.worker)
 
 //@ func workerBinder.WithDistributedQueue
-//@   props C14 C15 C02 C18
+//@   assert [registered-before-start] before call varmq.worker.start: len(wb.worker.queues.Manager.items) == old(len(wb.worker.queues.Manager.items)) + 1
+//@   props C14 C15 C02 C18 C11
 //@   requires wb.worker != nil && RI_worker(wb.worker) && len(wb.worker.queues.Manager.items) < MaxInt - 2 && wb.worker.Configs.idleWorkerExpiryDuration >= 0 && len(wb.worker.tickers) < MaxInt && dq != nil
 //@   modifies wb.worker.status, $alloc, $spawned, wb.worker.$disp, wb.worker.$reapers, wb.worker.$listeners, wb.worker.$nodes, wb.worker.tickers, wb.worker.tickers[**], key G:$tickersLive, $chan(wb.worker.eventLoopSignal), linkedlist.Node.next, linkedlist.Node.prev, wb.worker.pool.List.len, wb.worker.pool.List.$at, wb.worker.pool.List.$pos, wb.worker.pool.List.$in, wb.worker.queues.Manager.items, wb.worker.queues.Manager.items[**], $subs(dq)
 //@   ensures [once]      len(wb.worker.queues.Manager.items) == old(len(wb.worker.queues.Manager.items)) + 1 && wb.worker.queues.Manager.items[old(len(wb.worker.queues.Manager.items))] == dq
@@ -638,7 +650,8 @@ package varmq
 //@   ensures [ri]        RI_worker(wb.worker)
 
 //@ func workerBinder.WithDistributedPriorityQueue
-//@   props C14 C15 C02 C18
+//@   assert [registered-before-start] before call varmq.worker.start: len(wb.worker.queues.Manager.items) == old(len(wb.worker.queues.Manager.items)) + 1
+//@   props C14 C15 C02 C18 C11
 //@   requires wb.worker != nil && RI_worker(wb.worker) && len(wb.worker.queues.Manager.items) < MaxInt - 2 && wb.worker.Configs.idleWorkerExpiryDuration >= 0 && len(wb.worker.tickers) < MaxInt && dpq != nil
 //@   modifies wb.worker.status, $alloc, $spawned, wb.worker.$disp, wb.worker.$reapers, wb.worker.$listeners, wb.worker.$nodes, wb.worker.tickers, wb.worker.tickers[**], key G:$tickersLive, $chan(wb.worker.eventLoopSignal), linkedlist.Node.next, linkedlist.Node.prev, wb.worker.pool.List.len, wb.worker.pool.List.$at, wb.worker.pool.List.$pos, wb.worker.pool.List.$in, wb.worker.queues.Manager.items, wb.worker.queues.Manager.items[**], $subs(dpq)
 //@   ensures [once]      len(wb.worker.queues.Manager.items) == old(len(wb.worker.queues.Manager.items)) + 1 && wb.worker.queues.Manager.items[old(len(wb.worker.queues.Manager.items))] == dpq
@@ -673,7 +686,13 @@ package varmq
 // On every tick: if more than the minimum are idle, the idle nodes beyond the minimum that have expired are removed from the list, stopped
 // and cached. A node is stopped only after it was seen linked into the list (evidence of idleness) -- never a node taken by the dispatcher.
 //@ func worker.goRemoveIdleWorkers$1
-//@   props C18 C01 C03
+//@   props C18 C01 C03 C18@B2 C01@B2
+//@   b2_safety
+// B2 (findings G6, G7, both fixed): the dispatcher works on the idle list concurrently with the reaper. A node may be stopped and cached only
+// when THIS goroutine took it out of the list (Remove returned true); and the snapshot may be shorter than the length read before it.
+//@   ghost after call linkedlist.List.Remove: $own := result
+//@   assert [b2-own-stop] before call pool.Node.Stop: $own
+//@   assert [b2-own-put]  before call sync.Pool.Put: $own
 //@   requires $deref(ticker) != nil && $deref(w) != nil && PoolOK($deref(w)) && $deref(w).Configs.minIdleWorkerRatio <= 100 && $deref(w).concurrency * $deref(w).Configs.minIdleWorkerRatio <= MaxUint32
 //@   requires forall n *linkedlist.Node[pool.Node[JobType]] {n.Value.lastUsed} :: n.Value.lastUsed == nil || $typeof(n.Value.lastUsed) == $tid(time.Time)
 //@   modifies $alloc, linkedlist.Node.next, linkedlist.Node.prev, $deref(w).pool.List.len, $deref(w).pool.List.$at, $deref(w).pool.List.$pos, $deref(w).pool.List.$in,
